@@ -100,6 +100,7 @@ pub fn gen_input(src: &mut Src) -> (Vec<u8>, Origin) {
 }
 
 pub fn lib_parse(bytes: &[u8]) -> Result<Result<dnssector::ParsedPacket, String>, String> {
+    crate::history::fire_if_armed(bytes);
     let v = bytes.to_vec();
     let limit = 64 * bytes.len() as u64 + 4096;
     verif_hooks::reset();
@@ -125,6 +126,11 @@ fn progressed(bytes: &[u8]) -> bool {
 
 fn c01_case(data: &[u8], st: &mut Stats) -> PResult {
     let mut src = Src::new(data);
+    crate::history::case(&mut src, st, 6, c01_body)
+}
+
+fn c01_body(src: &mut Src, st: &mut Stats) -> PResult {
+    let mut src = src.fork();
     if src.weighted(&[5, 3]) == 0 {
         let (bytes, origin) = gen_input(&mut src);
         let tag = origin.tag();
@@ -404,6 +410,11 @@ pub fn c02_compare(bytes: &[u8], origin: &str, st: &mut Stats) -> PResult {
 
 fn c02_case(data: &[u8], st: &mut Stats) -> PResult {
     let mut src = Src::new(data);
+    crate::history::case(&mut src, st, 6, c02_body)
+}
+
+fn c02_body(src: &mut Src, st: &mut Stats) -> PResult {
+    let mut src = src.fork();
     if src.weighted(&[7, 2]) == 0 {
         let (bytes, origin) = gen_input(&mut src);
         let tag = origin.tag();
